@@ -87,8 +87,19 @@ func VerifC07Crash() {
 	} else {
 		c2 = c06Set(c2, opKey, opVal)
 	}
+	// cfg fresh2=1: version 2 is not derived from version 1's root but built from an empty tree (the way every
+	// IO root is), so that the finalized root of version 1 has no derived root
+	fresh2 := symx.Cfg("fresh2", 0) == 1
 	commit2 := func(d api.NodeDB) (node.Root, error) {
-		t2 := mkvs.NewWithRoot(nil, d, r1)
+		var t2 mkvs.Tree
+		if fresh2 {
+			t2 = mkvs.New(nil, d, node.RootTypeState)
+			for _, e := range c1 {
+				symx.Assert(t2.Insert(ctx, e.k, e.v) == nil, "Insert failed")
+			}
+		} else {
+			t2 = mkvs.NewWithRoot(nil, d, r1)
+		}
 		defer t2.Close()
 		var err error
 		if opRemove {
@@ -179,7 +190,7 @@ func VerifC07Crash() {
 	symx.Assert(db.HasRoot(r2), "version 2 not present after the operation was repeated")
 	c06CheckRoot(ctx, db, r2, c2, probe, "after repeating the operation (version 2)")
 	// the outcome of an uninterrupted run includes the write log of the transition (what storage sync serves)
-	if which <= 1 && r1.Hash != r2.Hash {
+	if which <= 1 && r1.Hash != r2.Hash && !fresh2 {
 		it, err := db.GetWriteLog(ctx, r1, r2)
 		symx.Assert(err == nil, "after repeating the operation the write log of the committed version is missing")
 		replica := mkvs.NewWithRoot(nil, db, r1)
